@@ -125,7 +125,8 @@ Theorem C03_unknown_line_endings : forall orc chunk st valid encs prev level nam
 Proof. exact unknown_line_endings_str. Qed.
 Print Assumptions C03_unknown_line_endings.
 
-(* the same for any falsy-or-unknown value, e.g. a non-zero integer (line_endings=1) *)
+(* the same for any value that is not a key of NEWLINE_FORMATS, e.g. an integer (line_endings=1, and since pydiffx
+   fix D19 also line_endings=0) *)
 Theorem C03_unknown_line_endings_gen : forall orc chunk st valid encs prev level name id opts line st1 k inh len,
   read_header chunk valid st = HdrOk level name id opts line st1 ->
   is_content id = true -> kind_of id = Some k ->
